@@ -20,3 +20,8 @@ open Dashu.Props.C07
 #print axioms ibig_bytes_model
 #print axioms chunks_round_trip
 #print axioms chunks_zero_panics
+#print axioms tower_length_shortcut_sound
+#print axioms printer_buffers_never_overrun
+#print axioms digit_writer_sound
+#print axioms parser_buffers_never_overrun
+#print axioms chunks_model
